@@ -3,6 +3,7 @@
 //!   zv record <module> <seed> <n> <out>  seeded random real calls -> ndjson trace for TLC
 mod calendar;
 mod cli;
+mod convert;
 mod order;
 mod pep440;
 mod render;
@@ -25,6 +26,8 @@ fn main() {
         ("record", "sanitizer") => sanitizer::record(rest),
         ("replay", "calendar") => calendar::replay(rest),
         ("record", "calendar") => calendar::record(rest),
+        ("replay", "convert") => convert::replay(rest),
+        ("record", "convert") => convert::record(rest),
         ("replay", "render") => render::replay(rest),
         ("record", "render") => render::record(rest),
         ("replay", "zerv") => zmodel::replay(rest),
